@@ -206,6 +206,10 @@ func (b *tierBackend) WriteReader(ctx context.Context, path string, r io.Reader,
 			r = &killReader{r: r, left: size / 2, trip: func() {}}
 		case "crash_mid":
 			r = &killReader{r: r, left: size / 2, trip: func() { b.in.die(rl) }}
+		case "crash_full":
+			// every byte has been handed to the real backend (and written to <path>.part) when the
+			// next Read arrives: the process dies between the last write and the rename
+			r = &killReader{r: r, left: size, trip: func() { b.in.die(rl) }}
 		}
 	}
 	err := b.Backend.WriteReader(ctx, path, r, size)
